@@ -10,6 +10,8 @@ import (
 
 func scenarios(quick bool) []sigh.Scen {
 	s := []sigh.Scen{
+		// the sender itself opens a second call (usurping its first) / re-attaches while its message is still queued for the partner
+		{"sender-usurps-with-message-queued", [][]string{{"attach:a1:A:B", "wait", "send:a1:m1", "attach:a2:A:B"}, {"attach:b1:B:A"}}},
 		{"honest", [][]string{{"attach:a1:A:B", "wait", "send:a1:m1"}, {"attach:b1:B:A", "wait", "send:b1:n1"}}},
 		{"foreign-key", [][]string{{"attach:a1:A:B", "wait", "sendas:a1:m1:C"}, {"attach:b1:B:A"}}},
 		{"tampered", [][]string{{"attach:a1:A:B", "wait", "sendbad:a1:m1", "send:a1:m2"}, {"attach:b1:B:A"}}},
@@ -22,6 +24,7 @@ func scenarios(quick bool) []sigh.Scen {
 	}
 	if !quick {
 		s = append(s,
+			sigh.Scen{"sender-reattaches-with-message-queued", [][]string{{"attach:a1:A:B", "wait", "send:a1:m1", "cancel:a1", "attach:a2:A:B"}, {"attach:b1:B:A"}}},
 			sigh.Scen{"third-party", [][]string{{"attach:a1:A:B", "wait", "send:a1:m1"}, {"attach:b1:B:A"}, {"attach:c1:C:A", "sende:c1:x1:1", "sende:c1:x2:2"}}},
 			sigh.Scen{"foreign-then-honest-reattach", [][]string{{"attach:a1:A:B", "wait", "sendas:a1:m1:C", "attach:a2:A:B", "wait", "send:a2:m2"}, {"attach:b1:B:A"}}},
 			sigh.Scen{"future-epoch-after-reattach", [][]string{{"attach:a1:A:B", "sende:a1:m1:5"}, {"attach:b1:B:A", "cancel:b1", "attach:b2:B:A"}}},
